@@ -2,6 +2,7 @@
 import ast
 
 from .common import *
+from ..dataflow import node_defs as node_defs_
 
 EXPLANATION = (
     "Decided, on EtherCat.find_free_address / assigned_address and their "
@@ -80,6 +81,40 @@ def run(chk, repo):
     chk.analysed(sym)
     cfg = CFG(f, raises="await")
     rd = ReachingDefs(cfg)
+    # check-then-add, whatever the shape of the search: every path to a
+    # `used_addresses.add(x)` comes through the 'absent' branch of a test
+    # of x against used_addresses, with no suspension point in between
+    adds0 = [(n, b_["x"]) for n in cfg.nodes if n.expr is not None
+             for _, b_ in find("self.used_addresses.add($x)", n.expr)]
+    chk.floor("R25.1", "reservations in find_free_address", len(adds0), 1)
+    for an, x in adds0:
+        xs = unparse(x)
+
+        def absent_edge(a, b, lab, _x=xs):
+            if a.kind != "test":
+                return False
+            if match(f"{_x} in self.used_addresses", a.expr) is not None:
+                return lab not in ("true", "exc")
+            if match(f"{_x} not in self.used_addresses", a.expr) is not None:
+                return lab == "true"
+            return False
+        starts = [cfg.entry] + [n for n in cfg.nodes if n.expr is not None
+                                and n is not an and any(
+                                    isinstance(y, ast.Await)
+                                    for y in walk_expr(n.expr))]
+        # also a re-binding of x makes an earlier test worthless
+        starts += [n for n in cfg.nodes if n.kind in ("stmt", "iter") and any(
+            d.var == xs for d in node_defs_(n))]
+        reach = cfg.reach_edges(starts, lambda a, b, lab: not absent_edge(
+            a, b, lab))
+        ok = an not in reach
+        chk.ob("R25.1", sym, f"`{xs}` is reserved only right after it was "
+               f"tested absent (no await, no re-binding in between)", ok,
+               an.stmt, "if i in used_addresses: continue ... add(i)" if ok
+               else f"used_addresses.add({xs}) is reachable from the entry, "
+               f"an await or a new binding of `{xs}` without passing the "
+               f"test: two tasks assigning addresses concurrently can "
+               f"reserve - and hand out - the same address")
     draws = [n for n in cfg.nodes if n.kind == "stmt" and isinstance(
         n.stmt, ast.Assign) and find("randint($*a)", n.stmt.value)]
     need(len(draws) == 1 and isinstance(draws[0].stmt.targets[0], ast.Name),
@@ -273,7 +308,43 @@ def assigned_exec(chk, repo, g, sym2):
     return True
 
 
+def explicit_addresses(chk, repo):
+    """Terminal.initialize(relative, absolute) writes `absolute` to the
+    terminal as its station address without consulting used_addresses or
+    probing the bus: inside the package it is only ever given the caller's
+    own `absolute` parameter (the user's explicit choice) or nothing (a
+    free address is found) - never a value computed or read from the bus"""
+    n = 0
+    for m in repo.production_modules():
+        if ".examples" in m.name or m.name.endswith("scripts"):
+            continue        # programs of their own: the user's choices
+        for c in ast.walk(m.tree):
+            if not (isinstance(c, ast.Call) and isinstance(
+                    c.func, ast.Attribute) and c.func.attr == "initialize"):
+                continue
+            fn = repo.enclosing_function(c)
+            val = c.args[1] if len(c.args) > 1 else None
+            for k in c.keywords:
+                if k.arg == "absolute":
+                    val = k.value
+            n += 1
+            ok = val is None or (isinstance(val, ast.Constant)
+                                 and val.value is None) or (
+                isinstance(val, ast.Name) and fn is not None
+                and val.id in param_names(fn) and not assigned_values(
+                    fn, val.id))
+            chk.ob("R25.4", func_qual(repo, c), "initialize() is given an "
+                   "explicit address only from the caller's own parameter",
+                   ok, c, "no address / the user's choice forwarded" if ok
+                   else f"`absolute={unparse(val)}`: the address is written "
+                   f"to the terminal although nothing establishes that it "
+                   f"is free, in the configured range and not handed out "
+                   f"before")
+    chk.floor("R25.4", "initialize() call sites", n, 2)
+
+
 def assigned_writers(chk, repo):
+    explicit_addresses(chk, repo)
     sym2 = E + "EtherCat.assigned_address"
     writers = []
     for m in repo.production_modules():
